@@ -85,8 +85,9 @@ INVS = ["InvConformsEncodes", "InvRoundTrip", "InvMatchCanon", "InvPrefixFree", 
 def model_and_replay(ctx, fa, clauses):
     """M: the spec's own properties on the bounded universe; G: every case of that universe replayed into the implementation."""
     from . import mcheck, p_layout
-    mcheck.model_check(ctx, "MC_Binary", {"Depth": 1}, INVS, "inv")
-    cases = mcheck.emit(ctx, "MC_Binary", {"Depth": 1}, "emit")
+    depth = 1 if ctx.quick() else 2
+    mcheck.model_check(ctx, "MC_Binary", {"Depth": depth}, INVS, "inv")
+    cases = mcheck.emit(ctx, "MC_Binary", {"Depth": depth}, "emit")
     ctx.extra["universe_cases_replayed"] = len(cases)
     if len(cases) < 100:
         ctx.machinery.append("MC_Binary printed only %d cases" % len(cases))
